@@ -169,6 +169,14 @@ def run(an: Analysis, rep):
     from . import c08
     rep.run(purity, an, rep, "R15.P", list(ENTRIES))
     rep.run(c08.r083, an, SharedRules(rep, "R15.S", "what from_json_data builds has the shape the data classes declare (tuples, not the lists of the document) (shared with C08's R08.3): otherwise re-serialising the loaded data fails or differs"))
+    from . import c07
+    from .json_model import find_json_functions as _fjf, load_schema as _ls
+    shj = SharedRules(rep, "R15.J", "what to_json_data writes is what from_json_data reads back, tag by tag (shared with C07's R07.1 / R07.3): 'loaded ... into data that re-serializes to the identical document'")
+    _root, _defs = _ls(an)
+    _enc, _cdec = _fjf(an)
+    rep.run(c07.r071, an, shj, _enc, _cdec, _defs)
+    rep.run(c07.r073, an, shj, _enc)
+    rep.run(c07.r07a, an, shj, _enc)
     rep.stats.update(an.stats(interps))
     rep.assumptions += [
         "json / orjson themselves serialise floats, strings and containers identically on 3.7..3.12",
@@ -243,6 +251,23 @@ def r152(an: Analysis, rep):
                         rep.add("R15.2", f"{f.qual}::{norm_src(c)}", False, loc(f.module, c),
                                 f"`{norm_src(c)}` tests whether a builtin value has the method {c.args[1].value!r}: that differs between interpreter versions (e.g. str.removeprefix exists "
                                 f"from 3.9), so the two branches run on different hosts and a document is decoded differently depending on where it is loaded")
+    # str predicates / case mappings answered from the running interpreter's Unicode database (11.0 on 3.7, 12.1 on 3.8, 13.0 on 3.9/3.10, 14.0 on 3.11, 15.0 on 3.12)
+    unicode_db = {"isidentifier", "isprintable", "isalpha", "isalnum", "isdecimal", "isdigit", "isnumeric", "islower", "isupper", "istitle", "isspace",
+                  "casefold", "lower", "upper", "title", "capitalize", "swapcase"}
+    for entry in ENTRIES:
+        it_u, _ = an.interp(entry, (3, 10))
+        for f in an.closure(entry, (3, 10)):
+            for c in ast.walk(f.node):
+                if isinstance(c, ast.Call) and isinstance(c.func, ast.Attribute) and c.func.attr in unicode_db and not c.args:
+                    from .encode_model import in_error_message
+                    if in_error_message(f.module, c):
+                        continue
+                    vals = it_u.value_at(c.func.value)
+                    if any(a[0] in ("src", "der") for a in vals):
+                        n += 1
+                        rep.add("R15.2", f"{f.qual}::{norm_src(c)} on document data", False, loc(f.module, c),
+                                f"`{norm_src(c)}` is answered from the Unicode database of the running interpreter (11.0 on 3.7 ... 15.0 on 3.12): for a character assigned in between "
+                                f"(a name written with U+1FAE0 under 3.12, U+A7C0 under 3.9) the hosts disagree, so a document written on one is rejected or decoded differently on another")
     from . import c07 as _c07
     it_ord, _ = an.interp("from_json")
     for g in an.closure("from_json"):
